@@ -60,7 +60,10 @@ class ReadUtf8Validate(Contract):
         return dfa_run(b.as_array(), iv(old.get(val, '_state')), b.n)
 
     def raises(self, ip, a, old):
-        return [Raises(P.ParseError, 'invalid-utf8', when=self._final(ip, a, old) == 1, iff=True, modifies=None, tags=('C05',))]
+        def rejected(ip2):
+            return iv(ip2.st.get(ip2.st.get(a.self, 'utf8_validator'), '_state')) == 1
+        return [Raises(P.ParseError, 'invalid-utf8', when=self._final(ip, a, old) == 1, iff=True, modifies=None, tags=('C05', 'C04', 'C01'),
+                       ensures=[('validator-left-in-REJECT', rejected, ('C05', 'C04'))])]
 
     def ensures(self, ip, a, old, res):
         st = ip.st
@@ -111,6 +114,21 @@ def _coroutine_throw(ip, cor, args, kw):
     # FrameParser.parse and ProxyParser.parse): the call always raises
     st = ip.st
     st.ghost.setdefault('throws', []).append(args[0])
+    parser = st.ghost.get('parser')
+    if parser is not None and getattr(ip, 'args', None) is not None and 'data' in ip.args:
+        # the three legitimate reasons to abort the coroutine with a ParseError (C02/C10/C19: in particular the length
+        # limit of read_until concerns the bytes UP TO the separator, not whatever else arrived in the same read)
+        aw = st.get(parser, '_awaiting')
+        reasons = [ip.bytes_of(ip.args.data).n == 0]
+        if isinstance(aw, ORef) and st.obj(aw).cls is P._ReadUtf8:
+            reasons.append(iv(st.get(st.get(aw, 'utf8_validator'), '_state')) == 1)
+        if isinstance(aw, ORef) and st.obj(aw).cls is P._ReadUntil:
+            mb = st.get(aw, 'max_bytes')
+            buf = ip.bytes_of(st.get(parser, '_buffer'))
+            if isinstance(mb, SOpt):
+                reasons.append(And(Not(mb.is_none), buf.n > iv(mb.val), no_sep_in(buf, iv(mb.val))))
+        st.oblige('throw:only-at-EOF,-on-rejected-UTF-8,-or-when-no-separator-ends-within-max_bytes', Or(*reasons),
+                  tags=('C01', 'C02', 'C04', 'C10', 'C19'))
     ip.st.ghost.setdefault('assumed', set()).add('a ParseError thrown into parse() is not swallowed (checked on FrameParser.parse and ProxyParser.parse)')
     raise PyRaise(ExcVal(None, base=Exception, tag='coroutine.throw'))
 
@@ -264,7 +282,7 @@ class ParserFeed(ProducerContract):
                 st.oblige('send:read_until-stops-at-the-FIRST-separator', no_sep_in(b, b.n - 1), tags=('C02', 'C10'))
                 mb = st.get(aw, 'max_bytes')
                 if isinstance(mb, SOpt):
-                    st.oblige('send:read_until-result-within-max_bytes', Implies(Not(mb.is_none), b.n <= iv(mb.val)), tags=('C10',))
+                    st.oblige('send:read_until-result-within-max_bytes', Implies(Not(mb.is_none), b.n <= iv(mb.val)), tags=('C02', 'C10', 'C19'))
             else:
                 st.oblige('send:only-while-an-awaitable-is-pending', BoolVal(False))
 
